@@ -15,7 +15,7 @@ from typing import Dict, Iterable, List, Optional, Set, Tuple
 from . import q
 from .cfg import Node
 from .model import AnalysisError, FuncInfo, Repo
-from .x_taint import Guard, flow_taint, regex_guard, regex_cleaner, expr_tainted, HelperSummaries
+from .x_taint import NONSTR, Guard, flow_taint, regex_guard, regex_cleaner, expr_tainted, HelperSummaries
 
 WEB = "tornado/web.py"
 NUMERIC = {"int", "float", "bool", "None"}
@@ -48,6 +48,7 @@ def _list_items(fi: FuncInfo, it: ast.AST) -> Optional[Tuple[List[str], Optional
     kw = fi.node.args.kwarg.arg if fi.node.args.kwarg else None
     params: List[str] = []
     covers = None
+    str_only = [False]
     from .x_flow import resolve_local
 
     it = resolve_local(fi, it)  # the list may be bound to a local first
@@ -70,6 +71,7 @@ def _list_items(fi: FuncInfo, it: ast.AST) -> Optional[Tuple[List[str], Optional
         if not (isinstance(e.elt, ast.Tuple) and len(e.elt.elts) == 2 and q.dotted(e.elt.elts[1]) == vname):
             return False
         for cond in g.ifs:
+            str_only[0] = True
             ok = q.is_call(cond, "isinstance") and len(cond.args) == 2 and q.dotted(cond.args[0]) == vname and all(
                 q.dotted(t) in ("str", "bytes", "unicode_type") for t in (cond.args[1].elts if isinstance(cond.args[1], ast.Tuple) else [cond.args[1]])) and (
                 "str" in [q.dotted(t) for t in (cond.args[1].elts if isinstance(cond.args[1], ast.Tuple) else [cond.args[1]])])
@@ -83,6 +85,18 @@ def _list_items(fi: FuncInfo, it: ast.AST) -> Optional[Tuple[List[str], Optional
             return walk(e.left) and walk(e.right)
         if items_of_kwargs(e) or comp_of_kwargs(e):
             covers = kw
+            return True
+        if isinstance(e, ast.Call) and isinstance(e.func, ast.Attribute) and e.func.attr == "items" and not e.args and isinstance(e.func.value, ast.Dict):
+            # {"label": param, ..., **kwargs}.items()
+            for k_, v_ in zip(e.func.value.keys, e.func.value.values):
+                if k_ is None:
+                    if not (isinstance(v_, ast.Name) and v_.id == kw):
+                        return False
+                    covers = kw
+                elif isinstance(v_, ast.Name):
+                    params.append(v_.id)
+                else:
+                    return False
             return True
         if isinstance(e, (ast.List, ast.Tuple)):
             for x in e.elts:
@@ -99,7 +113,7 @@ def _list_items(fi: FuncInfo, it: ast.AST) -> Optional[Tuple[List[str], Optional
 
     if not walk(it):
         return None
-    return params, covers
+    return params, (("~" + covers) if (covers and str_only[0]) else covers)
 
 
 class ValidationLoop:
@@ -156,9 +170,10 @@ def _absent_cleaner(n: Node, kind: str, tainted: Set[str]):
             out.append(d)  # falsy text is the empty string
     elif q.is_call(t, "isinstance") and len(t.args) == 2 and kind == "false":
         d = q.dotted(t.args[0])
-        ts = t.args[1].elts if isinstance(t.args[1], ast.Tuple) else [t.args[1]]
-        if d and "str" in [q.dotted(x) for x in ts]:
-            out.append(d)
+        ts = [q.dotted(x) for x in (t.args[1].elts if isinstance(t.args[1], ast.Tuple) else [t.args[1]])]
+        if d and "str" in ts:
+            # not a str: clean if bytes are excluded as well, otherwise only "not text *yet*" (decoding brings it back)
+            out.append(d if ("bytes" in ts or "unicode_type" in ts and "bytes" in ts) else "~" + d)
     return out
 
 
@@ -202,7 +217,9 @@ def analyse(repo: Repo, forbidden: Iterable[int], sanitizers=("format_timestamp"
     the function, the sinks (with key_tainted/value_tainted set) and the loops
     that were proven to validate their whole list (every completed iteration
     leaves the loop's value variable clean, the loop cannot stop early)."""
-    fi = repo.func(WEB, "RequestHandler.set_cookie")
+    from .x_http import norm_func
+
+    fi = norm_func(repo, repo.func(WEB, "RequestHandler.set_cookie"), depth=3, no_inline={"_convert_header_value"})
     forbidden = list(forbidden)
     cands = candidate_loops(repo, fi)
     sources = text_params(fi)
@@ -217,6 +234,7 @@ def analyse(repo: Repo, forbidden: Iterable[int], sanitizers=("format_timestamp"
             continue
         sts = st1.get(h.id, [])
         if sts and all(c.value_var not in t for t in sts):
+            c.weak = any((c.value_var + NONSTR) in t for t in sts)  # some values were only shown to be non-str
             loops.append(c)
     by_id = {id(l.for_node): l for l in loops}
 
@@ -224,9 +242,11 @@ def analyse(repo: Repo, forbidden: Iterable[int], sanitizers=("format_timestamp"
         out = list(_absent_cleaner(n, kind, tainted))
         if n.kind == "for" and kind == "false" and id(n.ast) in by_id:
             l = by_id[id(n.ast)]
-            out.extend(l.params)
+            pre = "~" if getattr(l, "weak", False) else ""
+            out.extend(pre + p_ for p_ in l.params)
             if l.covers_kwargs:
-                out.append(l.covers_kwargs)
+                ck_ = l.covers_kwargs
+                out.append(ck_ if ck_.startswith("~") or not pre else "~" + ck_)
         return out
 
     states = flow_taint(fi, sources, sanitizers=sanitizers, clean_on_edge=hs.cleaner(regex_cleaner(repo, fi, forbidden, extra)), on_node=hs.on_node, expr_hook=hs.expr_hook)
